@@ -24,7 +24,7 @@ type slot struct {
 
 var slots = []slot{
 	{"attr-name", 8}, {"action-name", 5}, {"entity-annotations", 4}, {"attr-annotations", 3}, {"shape", 3}, {"appliesTo", 5}, {"optional", 2},
-	{"attr-type", 15}, {"enum", 4}, {"action-parents", 5}, {"placement", 3}, {"tags", 5}, {"entity-parents", 5}, {"common-type", 5}, {"ns-annotations", 3}, {"action-annotations", 3},
+	{"attr-type", 15}, {"enum", 4}, {"action-parents", 5}, {"placement", 3}, {"tags", 5}, {"entity-parents", 5}, {"common-type", 5}, {"ns-annotations", 3}, {"action-annotations", 3}, {"empty-namespace", 4},
 }
 
 var attrNames = []types.String{"a", "if", "k k", "q\"uote\\", "", "é", "entity", "in"}
@@ -183,6 +183,20 @@ func build(c []int) *sast.Schema {
 			s.Actions = sast.Actions{}
 		}
 		s.Actions["top"] = sast.Action{}
+	}
+	if c[16] > 0 {
+		// a declared namespace with no declarations in it (plain, annotated, nested name)
+		if s.Namespaces == nil {
+			s.Namespaces = sast.Namespaces{}
+		}
+		switch c[16] {
+		case 1:
+			s.Namespaces["Zz"] = sast.Namespace{}
+		case 2:
+			s.Namespaces["Zz"] = sast.Namespace{Annotations: ann(2)}
+		case 3:
+			s.Namespaces["Zz::Sub"] = sast.Namespace{Annotations: ann(1)}
+		}
 	}
 	if c[9] == 3 {
 		if s.Namespaces == nil {
@@ -407,7 +421,7 @@ func Check() *core.Check {
 		ID:        "C17",
 		HangAfter: 120 * time.Second, // cases take at most seconds (max_case_s in the evidence); see core.Family.HangAfter
 		Title:     "Schema codecs round-trip and preserve the resolved schema",
-		Rule: "bounded deviation enumeration: a base schema using every construct, with 16 feature slots (names needing quotes for attributes and actions, annotations with / without value on namespaces, entities, attributes, actions and common types, empty / missing shapes, all appliesTo forms, optional attributes, 15 attribute types incl. nested records, sets, entity and extension references, common and built-in type references, enums with 0-3 values, action parents unqualified / qualified / cross-namespace / bare `Action::` naming the empty namespace from inside a namespace, placement at top level / in a namespace / in a nested namespace, tags, parent lists, common-type chains); every configuration with at most the stated number of slots deviating from the base; oracle: Resolve(parse(render(S))) equals Resolve(S) for text and JSON (canonical form: maps sorted, parent / appliesTo lists as sets, nil == empty), second rendering byte-identical, text->JSON and JSON->text commute with Resolve, resolution errors preserved; " +
+		Rule: "bounded deviation enumeration: a base schema using every construct, with 17 feature slots (names needing quotes for attributes and actions, annotations with / without value on namespaces, entities, attributes, actions and common types, empty / missing shapes, all appliesTo forms, optional attributes, 15 attribute types incl. nested records, sets, entity and extension references, common and built-in type references, enums with 0-3 values, action parents unqualified / qualified / cross-namespace / bare `Action::` naming the empty namespace from inside a namespace, placement at top level / in a namespace / in a nested namespace, tags, parent lists, common-type chains, a declared but empty namespace (plain / annotated / nested name)); every configuration with at most the stated number of slots deviating from the base; oracle: Resolve(parse(render(S))) equals Resolve(S) for text and JSON (canonical form: maps sorted, parent / appliesTo lists as sets, nil == empty), second rendering byte-identical, text->JSON and JSON->text commute with Resolve, resolution errors preserved; " +
 			"a configuration is non-trivial if the schema resolves",
 		Assumptions: []string{"Resolve itself is the reference for what a schema means"},
 		Families: func(tier string) []*core.Family {
